@@ -12,7 +12,7 @@ use crate::props::c04::{build_state, Recipe, StateSpec};
 use crate::util::{Json, Rng};
 
 pub const C14_PAIRS: [&str; 6] = ["P8xP8", "T24xT24", "B1xB1", "L200xB1", "A64xP8", "B3xB1"];
-const STATES: [Recipe; 8] = [Recipe::Full, Recipe::Saturated, Recipe::SaturatedRandom, Recipe::SaturatedRandom, Recipe::Fresh, Recipe::Small, Recipe::Tombstoned, Recipe::History];
+const STATES: [Recipe; 10] = [Recipe::Layout, Recipe::Layout, Recipe::Full, Recipe::Saturated, Recipe::SaturatedRandom, Recipe::SaturatedRandom, Recipe::Fresh, Recipe::Small, Recipe::Tombstoned, Recipe::History];
 /// only the entry-style operations (and a little lookup) are drawn
 const W: [u32; NOPS] = [0, 2, 0, 1, 1, 0, 0, 3, 30, 22, 0, 0, 0, 0, 0, 0, 0, 0, 0, 30, 22, 0, 0, 6];
 
@@ -26,6 +26,7 @@ pub fn run(c: &mut Ctx) {
 pub fn scenario<K: Elem, V: Elem>(c: &mut Ctx, idx: u64, rng: &mut Rng) {
     let recipe = STATES[((crate::util::mix(idx) / C14_PAIRS.len() as u64) % STATES.len() as u64) as usize];
     let plan = match recipe {
+        Recipe::Layout => *rng.pick(&[Plan::Ident, Plan::Ident, Plan::IdentOneTag]),
         Recipe::Saturated | Recipe::SaturatedRandom | Recipe::Tombstoned if rng.chance(3, 4) => *rng.pick(&[Plan::Ident, Plan::IdentOneTag, Plan::Zero, Plan::SamePos, Plan::Palette(1, 3), Plan::Palette(3, 1), Plan::Palette(4, 4), Plan::Stride, Plan::Tail, Plan::Max]),
         _ => pick_plan(rng),
     };
@@ -41,7 +42,7 @@ pub fn scenario<K: Elem, V: Elem>(c: &mut Ctx, idx: u64, rng: &mut Rng) {
         let mut d = build_state::<K, V>(&spec, c);
         d.validate_every = 1;
         // keys: mostly the ones around the stored range, so that present and absent keys both occur
-        d.universe = ((d.model.len() as u32) * 2 + 6).min(K::ID_SPACE);
+        d.universe = if matches!(recipe, Recipe::Layout) { 512u32.min(K::ID_SPACE) } else { ((d.model.len() as u32) * 2 + 6).min(K::ID_SPACE) };
         let dump = d.map.verif_dump();
         let at_full = d.map.capacity() == d.map.len();
         if at_full && d.map.len() > 0 {
